@@ -313,7 +313,7 @@ structure ChkSt where
   abs : List ((Nat × String) × Abs) := []
   pausedTicks : Nat := 0                                -- statistics: (instance, tick) pairs inside a pause
 
-def checkTick (c05 : Bool) (rss : List RsJ) (objs : List ObjI) (k : Nat) (t : TickJ) (it : ITick) (prev : List (List String))
+def checkTick (c05 : Bool) (c06 : Bool) (rss : List RsJ) (objs : List ObjI) (k : Nat) (t : TickJ) (it : ITick) (prev : List (List String))
     (S : ChkSt) : List String × ChkSt × List (List String) := Id.run do
   let mut v : List String := []
   let mut S' : ChkSt := { pausedTicks := S.pausedTicks }
@@ -389,6 +389,16 @@ def checkTick (c05 : Bool) (rss : List RsJ) (objs : List ObjI) (k : Nat) (t : Ti
         if !once then v := v ++ ["C05.percg_detectors_every_tick"]
         if T?.isSome && paused && !got.isEmpty then v := v ++ ["C05.percg_no_action_before_t_plus_d"]
         if T?.isSome && !paused && got.isEmpty && !expected.isEmpty then v := v ++ ["C05.percg_actions_again_from_t_plus_d"]
+      -- C06 for ruleset-cgroup rulesets, per matching cgroup (scenarios of C06's `percg` pass): an instance that stayed resumes
+      -- its own suspended chain at the paused action with the context it was fired with; an instance created after an absence
+      -- starts clean (no inherited chain), whatever other instances are doing
+      if c06 && T?.isSome then
+        if got != expected && (fresh || A.susp.isSome) then
+          v := v ++ [if fresh then "C06.percg_clean_after_absence" else "C06.percg_resumes_paused_action"]
+        else
+          match acts.head?, (if paused then none else A.susp) with
+          | some e0, some (_, c) => if ctxOf e0 != c then v := v ++ ["C06.percg_same_context"]
+          | _, _ => pure ()
       if T?.isSome && got != expected then
         v := v ++ [if fresh then "C11.fresh_after_absence.state" else "C11.state_persists_while_present.state"]
       else
@@ -453,7 +463,7 @@ def collectObjs (compile : List IEv) (ticks : List ITick) : List ObjI := Id.run 
 /-! ### entry point -/
 
 def priority : List String :=
-  ["C11.no_error", "trace", "C05.", "C11.once_per_match", "C11.prerun_every_tick", "C11.discarded_when_absent",
+  ["C11.no_error", "trace", "C05.", "C06.", "C11.once_per_match", "C11.prerun_every_tick", "C11.discarded_when_absent",
    "C11.fresh_after_absence", "C11.state_persists_while_present", "C11.default_target"]
 
 def rank (c : String) : Nat := (priority.findIdx? fun p => c.startsWith p).getD priority.length
@@ -508,7 +518,7 @@ def handle (j : Json) : Json :=
   let objs := collectObjs compile iticks
   let chk (acc : List String × ChkSt × List (List String) × Nat) (ti : TickJ × ITick) :=
     let (v, S, prev, k) := acc
-    let (v', S', cur) := checkTick (jstr sc "prop" == "C05") rss objs k ti.1 ti.2 prev S
+    let (v', S', cur) := checkTick (jstr sc "prop" == "C05") (jstr sc "prop" == "C06") rss objs k ti.1 ti.2 prev S
     (v ++ v', S', cur, k + 1)
   let (viol0, Sfin, _, _) := (ticks.zip iticks).foldl chk ([], {}, [], 0)
   let viol1 := if iticks.length == ticks.length then viol0 else viol0 ++ ["trace.missing_ticks"]
